@@ -106,10 +106,10 @@ def cases(tier, seed):
         yield {"kind": "unsupported", "k": k, "n": 3 if thorough else 1}
     for k in range(12 if thorough else 4):
         yield {"kind": "cli", "k": k, "n": 8 if thorough else 5}
-    for k in range(100 if thorough else 8):
+    for k in range(100 if thorough else 20):
         yield {"kind": "expr", "k": k, "n": 400 if thorough else 150}
     # 150 000 programs in the thorough tier (8 ms CPU per program: a few minutes on 16 idle cores)
-    n_gen, per = (1500, 100) if thorough else (60, 50)
+    n_gen, per = (1500, 100) if thorough else (400, 50)
     for k in range(n_gen):
         yield {"kind": "gen", "k": k, "n": per}
 
